@@ -25,7 +25,7 @@ func runC14(w *World) *Result {
 	r := NewResult("C14")
 	r.Explanation = "Decides purity of transpilation structurally: (maporder) every iteration over a map in the library packages has order-insensitive effects (per-key stores / deletes) or feeds error text only; (ambient) no library function calls into time, random, environment, process or host state, and path-valued ambient results (absolute path, executable location, working directory) flow only into file access, the parser's path bookkeeping and error text – never into tree nodes, emitted names or the namespace prefix; (prefix) the namespace prefix is computed from the bytes read from the file through a hash and nothing else; (state) no package-level variable of the library is written after initialisation, the transpiler's converter field is assigned from the call's argument before use, and the parser is created inside the call."
 	r.NotDecided = "nothing run-time is needed for this property; the rules rely on the soundness of the static view (no reflection/unsafe in the library, checked) and on C19 for the one in-repo caller handing over fresh converters."
-	r.Rule("R-C14-maporder", "map iterations have order-insensitive effects", 2)
+	r.Rule("R-C14-maporder", "map iterations have order-insensitive effects", 1)
 	r.Rule("R-C14-ambient", "no ambient state calls; path taint confined to file access, path bookkeeping and error text", 3)
 	r.Rule("R-C14-prefix", "namespace prefix = f(file bytes) only", 1)
 	r.Rule("R-C14-state", "no writes to package-level state; converter field assigned before use; parser created per call", 4)
